@@ -399,7 +399,11 @@ class MemoryFieldArray:
         :param value: value to set on index
         :return: None
         """
-        self._dataset[key] = value
+        if self._dataset is None:
+            # nothing has been written yet: behave like the zero-length array that __getitem__ returns
+            np.zeros(0, dtype=self._dtype)[key] = value
+        else:
+            self._dataset[key] = value
 
     def clear(self):
         """
